@@ -7,7 +7,10 @@ EXTENDS Integers, Sequences, TLC, Json
 CONSTANTS Vals, MaxLen
 VARIABLES q, last
 R(n, args, r) == [n |-> n, a |-> args, r |-> r]
-Idxs == -1..MaxLen + 1
+\* (Lo / Hi stand for math.MinInt / math.MaxInt: the adapter substitutes them; TLC integers have 32 bits)
+Lo == -2000000000
+Hi == 2000000000
+Idxs == (-1..MaxLen + 1) \cup {Lo, Hi}
 In(i) == i >= 0 /\ i < Len(q)
 RemoveAt(s, i) == SubSeq(s, 1, i) \o SubSeq(s, i + 2, Len(s))          \* 0-based i
 InsertAt0(s, i, v) == SubSeq(s, 1, i) \o <<v>> \o SubSeq(s, i + 1, Len(s))   \* v becomes element i (0-based)
